@@ -106,6 +106,23 @@ Theorem accept_iff : forall inner out, accept inner out = true <-> marshal inner
 Proof. exact Proofs.accept_iff. Qed.
 Print Assumptions accept_iff.
 
+(* sequences of calls (kind A): outputs are values.  In the model the i-th
+   output depends on the i-th inner encoding only and every later reading of
+   it is the same frame. *)
+Theorem C19_seq_holds : forall inners k, C19_seq_ok (model_seq inners k) = true.
+Proof. exact Proofs.C19_seq_ok_model. Qed.
+Print Assumptions C19_seq_holds.
+
+Theorem accept_seq_model : forall inners k,
+  accept_seq_values (model_seq inners k) = true /\ seq_stable (model_seq inners k) = true.
+Proof. exact Proofs.accept_seq_model. Qed.
+Print Assumptions accept_seq_model.
+
+Theorem C19_call_ok_stable : forall c, C19_call_ok c = true ->
+  forall o, sc_out c = Ok o -> forall l, In l (sc_later c) -> l = o.
+Proof. exact Proofs.C19_call_ok_stable. Qed.
+Print Assumptions C19_call_ok_stable.
+
 (* ---- non-vacuity and sensitivity of the monitors, by computation ---- *)
 (* wrapperspb.StringValue{"123456789"}: field 1, length-delimited *)
 Definition ex_msg : bytes := x0a :: x09 :: check_input.
@@ -161,4 +178,14 @@ Example C19_case_rejects_other_error :
 Proof. vm_compute. reflexivity. Qed.
 Example verify_detects_bit_flip :
   verify_frame ([xfd; x7f; xcc; x20; x8f; xf8] ++ [x0a; x09] ++ [x31; x32; x33; x34; x35; x36; x37; x38; x38]) = false.
+Proof. vm_compute. reflexivity. Qed.
+
+(* an output that was right when returned but reads differently after the next
+   call (storage shared between calls) is rejected *)
+Example C19_seq_rejects_overwritten_output :
+  C19_seq_ok [mkSeqCall ex_msg (marshal (Ok ex_msg)) [marshal_ok [x0a; x01; x41]];
+              mkSeqCall [x0a; x01; x41] (marshal (Ok [x0a; x01; x41])) [marshal_ok [x0a; x01; x41]]] = false.
+Proof. vm_compute. reflexivity. Qed.
+Example C19_seq_accepts_model_run :
+  C19_seq_ok (model_seq [ex_msg; []; [x0a; x01; x41]] 3) = true.
 Proof. vm_compute. reflexivity. Qed.
